@@ -2,6 +2,7 @@
 import sys, os, json, itertools
 import z3
 import common, llir, symx, models, smt
+import C16g
 from symx import Ptr, alloc_i64, explore, sgn64, is_sym
 
 HARNESS = 'C16_edge.cc'
@@ -22,7 +23,7 @@ def check_c16(ck, tier, replay=None):
     ck.units += ['tools/src/libtools/edge.cc', 'tools/src/libtools/reducededge.cc']
     ck.functions.update(common.ir_func_sizes(mod, r'^@h_|Edge'))
     ck.assumptions += ['vertex ids are solver integers ranging over all of int64 (votca::Index); chains have pairwise distinct vertices (closed chains repeat only their first vertex at the end)',
-                       'ONLY the canonicalisation leaves are covered: structure equivalence, breadth-first distances, connected components, graph reduction/expansion and single-network detection (all on string-keyed maps) are outside this check']
+                       'Edge/ReducedEdge clauses: ids over all of int64; graph-algorithm clauses: labels from small stated domains (see bounds); BeadStructure (csg) wrappers and masses as node contents are outside']
     parsed = {}; found = []
     a, b, c, d = z3.Ints('a b c d')
     LO, HI = -(1 << 63), (1 << 63) - 1
@@ -80,6 +81,13 @@ def check_c16(ck, tier, replay=None):
             goal.append(ends)
             q.append((pc, [z3.Not(z3.And(goal))]))
         agg(ck, 'ReducedEdge %s chain of %d vertices: expand() yields exactly the adjacent pairs (lossless), end points preserved' % ('closed' if closed else 'open', n), q, TO, found)
+    gfound = []
+    if not os.environ.get('VERIF_C16_LEAVES_ONLY'):
+        C16g.check_graph(ck, tier, lambda name, meta: gfound.append((name, meta)))
+    for name, meta in gfound:
+        rep = common.write_replay('C16', name, {}, meta)
+        ok, why = C16g.replay_graph(meta)
+        ck.violation('C16 ' + meta['clause'] + ' ' + meta['shape'], name + ' ; ' + why, rep, reproduced=ok)
     ck.bounds['chains'] = 'open chains of 2..4 (thorough 5) and closed chains of 3..4 (thorough 5) distinct symbolic vertices'
     for name, mdl in found:
         meta = {'clause': name, 'model': mdl}
@@ -91,6 +99,7 @@ def replay_native(meta):
     """Edge clause: the model's four ids through the native Edge class, the clause recomputed in Python.  ReducedEdge clauses
     have no model-to-chain mapping recorded beyond the vertex values; they are re-run natively on the model's vertex values."""
     binp = common.native_build([common.harness_path(HARNESS)], 'C16_native', extra=['-I' + common.REPO], defs=['VERIF_NATIVE'])
+    if str(meta.get('clause', '')).startswith('graph:'): return C16g.replay_graph(meta)
     mdl = meta.get('model') or {}
     def val(k, d=0):
         try: return int(str(mdl.get(k, d)))
